@@ -2366,6 +2366,10 @@ func (e *episode) execPeer(run *hx.Run, o peerOp) {
 	if wf && gateOK && parseOK && allValid && class != "ok" {
 		run.Violate("admit:valid_rejected", fmt.Sprintf("peer: fully valid message rejected: %v", herr))
 	}
+	if wf && gateOK && parseOK && allValid && class == "ok" && len(calls) == 0 && len(o.entries) > 0 {
+		// accepted without error, yet nobody was told: the partial signatures never reach the store
+		run.Violate("admit:valid_not_delivered", fmt.Sprintf("peer: fully valid message for duty %d/%d (%d entries) returned no error but no subscriber was called", o.slot, o.ty, len(o.entries)))
+	}
 	for _, c := range calls {
 		if int(c.duty.Type) != o.ty || c.duty.Slot != o.slot {
 			run.Violate("admit:wrong_duty_type", fmt.Sprintf("peer: subscriber got duty %v for message duty %d/%d", c.duty, o.slot, o.ty))
